@@ -176,6 +176,7 @@ def run_cases(mod, cases, use_driver=True, per_case_timeout=20):
                 g2 = '!harness:' + type(e).__name__ + ':' + str(e)[:80]
             finally:
                 signal.alarm(0)
+            common.COUNTS['call/second-evaluation'] += 1
             if g2 != got[i]:
                 got[i] = '!harness:unstable: asked again after the other cases of this run, the implementation answered %s; first answer %s' % (g2[:200], got[i][:200])
     model = [None] * len(cases)
@@ -316,9 +317,12 @@ def _seed_worker(job):
     rng = random.Random('%s/%d/%d' % (pid, seed, s))
     cases = list(mod.corpus()) if s == 0 and hasattr(mod, 'corpus') else []
     cases += list(mod.generate(rng, tier))
+    common.COUNTS.clear()
     got, model, oracle = run_cases(mod, cases, use_driver=driver_ok)
     r = {'evaluations': 0, 'distinct': set(), 'hist': {}, 'samples': [], 'platform_fail': [],
          'oracle_fail': [], 'corr_fail': []}
+    for k, v in common.COUNTS.items():
+        r['hist']['~' + k] = v           # how objects were built / what was done around the calls (not case tags)
     for c, g, m, o in zip(cases, got, model, oracle):
         r['evaluations'] += 1
         r['hist'][c.tag] = r['hist'].get(c.tag, 0) + 1
